@@ -729,6 +729,10 @@ func (d *driver) execOp(op *opState) Obs {
 	var progcb client.ProgressHandler
 	if l.Prog {
 		progcb = func(r *wamp.Result) {
+			// let a Call that does not wait for this callback get ahead
+			for i := 0; i < 3; i++ {
+				runtime.Gosched()
+			}
 			tag, n := atag(r.Arguments)
 			d.log(Obs{E: "prog", O: l.O, Tag: tag, N: n, Req: int64(r.Request)})
 		}
